@@ -1096,6 +1096,72 @@ define_spaces(void) {
   space_blind_done(sp);
 }
 
+/* space "fits-exactly": well-formed messages at the top of what a receive PDU of a given size may hold.  libcoap's receive paths
+ * allocate the PDU for the session's maximum receive size and parse into it; a message whose token + options + payload is at most
+ * that size is within "the maximum PDU size" of the quantifier and has to be accepted, on every framing. */
+static void
+fits_case(uint64_t idx, void *arg) {
+  (void)arg;
+  static const size_t SIZES[] = {60, 1148};
+  size_t S = SIZES[idx % 2];
+  uint64_t x = idx / 2;
+  size_t B = S - 8 + (size_t)(x % 9); /* body: token + options + payload */
+  x /= 9;
+  size_t tkl = x % 2 ? 8 : 0;
+  x /= 2;
+  int fr = (int)x; /* 0 UDP, 1 TCP, 2 WS */
+  static uint8_t m[1300];
+  size_t n = 0, rest = B - tkl; /* options + payload */
+  if (fr == 0) {
+    m[n++] = (uint8_t)(0x40 | tkl);
+    m[n++] = 0x01;
+    m[n++] = 0x12;
+    m[n++] = 0x34;
+  } else if (fr == 1) {
+    if (rest < 13)
+      m[n++] = (uint8_t)(rest << 4 | tkl);
+    else if (rest < 269) {
+      m[n++] = (uint8_t)(13 << 4 | tkl);
+      m[n++] = (uint8_t)(rest - 13);
+    } else {
+      m[n++] = (uint8_t)(14 << 4 | tkl);
+      m[n++] = (uint8_t)((rest - 269) >> 8);
+      m[n++] = (uint8_t)(rest - 269);
+    }
+    m[n++] = 0x01;
+  } else {
+    m[n++] = (uint8_t)tkl;
+    m[n++] = 0x01;
+  }
+  size_t hdr = n;
+  for (size_t i = 0; i < tkl; i++)
+    m[n++] = (uint8_t)(0xA0 + i);
+  m[n++] = 0xB1; /* Uri-Path "a" */
+  m[n++] = 'a';
+  m[n++] = 0xFF;
+  while (n < hdr + B)
+    m[n++] = (uint8_t)('0' + n % 10);
+  uint8_t *in = malloc(n);
+  memcpy(in, m, n);
+  coap_proto_t proto = fr == 0 ? COAP_PROTO_UDP : fr == 1 ? COAP_PROTO_TCP : COAP_PROTO_WS;
+  coap_pdu_t *pdu = coap_pdu_init(0, 0, 0, S);
+  int ok = pdu && coap_pdu_parse(proto, in, n, pdu);
+  size_t plen = 0;
+  const uint8_t *pd = NULL;
+  if (ok)
+    coap_get_data(pdu, &plen, &pd);
+  if (!ok || plen != B - tkl - 3) {
+    char sig[100];
+    snprintf(sig, sizeof sig, "reject:fits-receive-pdu:body=size%+d:%s", (int)B - (int)S, fr == 0 ? "udp" : fr == 1 ? "tcp" : "ws");
+    vx_fail(sig, "well-formed %s message of %zu bytes (token %zu, one option, payload %zu: %zu bytes of token+options+payload) parsed into a PDU of size %zu: %s",
+            fr == 0 ? "UDP" : fr == 1 ? "TCP" : "WS", n, tkl, B - tkl - 3, B, S, ok ? "payload length differs" : "rejected");
+  }
+  if (pdu)
+    coap_delete_pdu(pdu);
+  free(in);
+  vxp_count(CN_CASES, 1);
+}
+
 int
 main(int argc, char **argv) {
   vx_main_init(argc, argv, "C03");
@@ -1113,6 +1179,13 @@ main(int argc, char **argv) {
   struct corpus *cq = NULL, *ct = NULL;
   int table_built = 0;
 
+  if (vxp_replay_if_match("fits-exactly", fits_case, NULL))
+    return 0;
+  if (!replay && IS_ASAN) {
+    struct vxp_config fc = {.space = "fits-exactly", .total = 2 * 9 * 2 * 3, .chunk = 4};
+    struct vxp_stats fs;
+    vxp_enumerate(&fc, fits_case, NULL, &fs);
+  }
   for (int i = 0; i < nspaces; i++) {
     struct space *sp = &spaces[i];
     if (!replay && !(sp->mask & me))
@@ -1188,7 +1261,7 @@ main(int argc, char **argv) {
              "for TCP x length-prefix mode, for WS x Len nibble) x every tail over the alphabet; mutation space: every "
              "nibble (16 values) of every header and option-header byte, every extension byte (256 values), marker "
              "insert/remove at every option boundary, truncation to every length, for every corpus message (TCP: raw and "
-             "with the length prefix re-derived); table space: every option with defined limits at every limit boundary. "
+             "with the length prefix re-derived); table space: every option with defined limits at every limit boundary; space fits-exactly: well-formed messages whose token + options + payload is size-8..size of a receive PDU of size 60 / 1148, three framings. "
              "distinct_nontrivial = distinct byte strings accepted by both sides that carry a token, an option or a payload");
   vx_ev_assumption("Stream framing is driven without a socket: coap_pdu_parse_header_size + coap_pdu_parse_size + "
                    "coap_pdu_parse are called exactly as coap_read_session does for one chunk holding the whole string; "
